@@ -71,7 +71,9 @@ def run_functions(keys, timeout, jobs=16):
     if not keys:
         return []
     ctx = mp.get_context("fork")
-    with ctx.Pool(min(jobs, len(keys))) as pool:
+    # (one fresh child per function: the numbering of fresh names - and with it the solver's behaviour - must not depend
+    #  on which functions the same worker happened to verify before)
+    with ctx.Pool(min(jobs, len(keys)), maxtasksperchild=1) as pool:
         return pool.map(_worker, [(k, timeout) for k in keys], chunksize=1)
 
 
